@@ -101,6 +101,11 @@ def signatures(t, sd):
     for pos in (0, 1, 3):
         add("multi_pos%d" % pos, [P(U8), P(STR), RF("asset")], STR, 1, siblings=sibs, position=pos)
         add("multi_tx_pos%d" % pos, [TX("axfer"), P(U64)], U64, 1, siblings=sibs[:2], position=min(pos, 2))
+    # parameter names that are fragments of "return" / "output" (the contract must still list every parameter)
+    add("pn_frag", [P(U64), P(U8), P(STR)], STR, 2, pnames={"0": "r", "1": "turn", "2": "n"})
+    add("pn_frag2", [P(U8), TX("pay"), P(U64)], U64, 2, pnames={"0": "ret", "1": "e", "2": "u"})
+    add("pn_outputish", [RF("account"), P(U64)], None, None, pnames={"0": "out", "1": "put"})
+    add("pn_keywordish", [P(BOOL), P(U64)], U64, 1, pnames={"0": "return_", "1": "output_"})
     # overridden names
     add("impl_fn", [P(U64)], U64, 0, registered_name="public_name")
     add("impl_void", [P(STR)], None, None, registered_name="other")
